@@ -107,7 +107,10 @@ class Run:
         outp = os.path.join(d, module + ".out")
         with open(outp, "w") as of:
             # deep recursion over long argument lists (multi-transfers of 257 tokens) needs a larger thread stack
-            env = dict(os.environ, JAVA_TOOL_OPTIONS=(os.environ.get("JAVA_TOOL_OPTIONS", "") + " -Xss256m").strip())
+            # (java.io.tmpdir: SANY unpacks the standard modules into a temporary directory per run; keep it inside the work directory)
+            jt = os.path.join(d, "jtmp")
+            os.makedirs(jt, exist_ok=True)
+            env = dict(os.environ, JAVA_TOOL_OPTIONS=(os.environ.get("JAVA_TOOL_OPTIONS", "") + " -Xss256m -Djava.io.tmpdir=" + jt).strip())
             p = subprocess.Popen(cmd, cwd=d, stdout=of, stderr=subprocess.STDOUT, env=env)
             try:
                 rc = p.wait(timeout=timeout)
@@ -116,6 +119,7 @@ class Run:
                 subprocess.run(["pkill", "-f", md])
                 raise Infra("TLC timed out after %ds: %s" % (timeout, " ".join(cmd)))
         shutil.rmtree(md, ignore_errors=True)
+        shutil.rmtree(os.path.join(d, "jtmp"), ignore_errors=True)
         self.cov["tlc_cmds"].append("(cd %s && %s)  # %.1fs" % (os.path.relpath(d, ROOT), " ".join(cmd), time.time() - t0))
         keep = []
         with open(outp, errors="replace") as f:
@@ -163,7 +167,8 @@ class Run:
             raise Infra("trace validation did not run to the end of the log (specification or harness error):\n" + tail_errors(o))
         counters = {k: int(v) for k, v in re.findall(r"(\w+) \|-> (\d+)", dm.group(4))}
         nlines = int(dm.group(1))
-        return viols, {"lines": nlines, "drift": drift, "counters": counters}
+        drift_lines = [(int(a), b) for a, b in re.findall(r'<<\s*"DRIFT",\s*(\d+),.*?(\{.*\})\s*>>', o)]
+        return viols, {"lines": nlines, "drift": drift, "counters": counters, "drift_lines": drift_lines}
 
     # ---------------------------------------------------------------- verdict
     def add_violation(self, pred, desc, replay_obj):
